@@ -60,3 +60,15 @@ Theorem model_is_source_C18_NewtonC : forall S : SArith, @SrcEqNewtonC.model_is_
 Proof. intros S. exact SrcEqNewtonC.model_is_source_NewtonC_lemma. Qed.
 Check model_is_source_C18_NewtonC : forall S : SArith, @SrcEqNewtonC.model_is_source_NewtonC S.
 Print Assumptions model_is_source_C18_NewtonC.
+
+(* ======================================================================== C19_r2c2.v.txt *)
+(* ---- tie of the model to the source of this run (package r2c2): gen/SrcMesh.v is regenerated from src/mesh1d.rs and
+   src/mesh2d.rs by driver/rust2coq.py on every check run (26 functions: every storage path, Index, the interpolation loop,
+   the three trapezium rules, assign / apply / cross sections / var_as_matrix; file I/O excluded); Proofs/SrcEqMesh.v proves
+   each regenerated function equal to its hand-written model of Model/Mesh.v, for every arithmetic, every coordinate type and
+   every mesh value (well-formed or not).  The literals 0.5 / 0.25 / 1.0e-7 are the model's parameters half / quarter / snap. *)
+From OV Require Proofs.SrcEqMesh.
+Theorem model_is_source_C19_Mesh : forall (A : Arith) (X : Type), @SrcEqMesh.model_is_source_Mesh A X.
+Proof. intros A X. exact SrcEqMesh.model_is_source_Mesh_lemma. Qed.
+Check model_is_source_C19_Mesh : forall (A : Arith) (X : Type), @SrcEqMesh.model_is_source_Mesh A X.
+Print Assumptions model_is_source_C19_Mesh.
